@@ -69,6 +69,14 @@
 //@ prelude
 // The leaf appenders of DeltaStream (ASSUMED contracts; bodies are format strings).
 impl DeltaStream {
+    // ASSUMED additionally: the rendered header (fixed text, three numbers, a date) is
+    // shorter than the 64000 byte chunk limit
+    #[verifier::external_body]
+    fn append_header(vec: &mut Vec<u8>, session: u64, from_serial: Serial, to_serial: Serial, created: DateTime<Utc>)
+        ensures trace(final(vec)@) == trace(old(vec)@).push(Tok::Header),
+                old(vec)@.len() == 0 ==> final(vec)@.len() <= 64000,
+    { unimplemented!() }
+
     #[verifier::external_body]
     fn append_separator(vec: &mut Vec<u8>)
         ensures trace(final(vec)@) == trace(old(vec)@).push(Tok::Sep),
@@ -84,6 +92,68 @@ impl DeltaStream {
         ensures trace(final(vec)@) == trace(old(vec)@).push(Tok::Footer),
     { unimplemented!() }
 }
+impl SnapshotStream {
+    #[verifier::external_body]
+    fn append_header(vec: &mut Vec<u8>, session: u64, to_serial: Serial, created: DateTime<Utc>)
+        ensures trace(final(vec)@) == trace(old(vec)@).push(Tok::Header),
+                old(vec)@.len() == 0 ==> final(vec)@.len() <= 64000,
+    { unimplemented!() }
+}
+//@ fn PayloadDelta::arc_iter
+//@ spec
+    ensures res.delta == self, res.wf(), res.pos() == 0,
+//@ fn PayloadSnapshot::arc_iter
+//@ spec
+    ensures res.snapshot == self, res.wf(), res.pos() == 0,
+//@ fn DeltaStream::new
+//@ spec
+    ensures
+        res.withdraw is Some, res.dl() == &*delta, res.wf(&*delta),
+        // C18: a new stream has the whole document still to produce:
+        // header, announced items, separator, withdrawn items, footer
+        res.rest(&*delta) == delta_document(&*delta),
+//@ entry
+        broadcast use axiom_trace_empty;
+//@ fn SnapshotStream::new
+//@ spec
+    ensures
+        res.iter is Some, res.sn() == &*snapshot, res.wf(&*snapshot),
+        // C18: a new stream has the whole document still to produce: header, all items, footer
+        res.rest(&*snapshot) == snapshot_document(&*snapshot),
+//@ entry
+        broadcast use axiom_trace_empty;
+//@ fn SnapshotStream::next
+//@ spec
+    requires
+        old(self).iter is Some ==> old(self).wf(old(self).sn()),
+    ensures
+        // C18: once the footer is out the iterator is fused
+        old(self).iter is None ==> res is None && *final(self) == *old(self),
+        // C18: each chunk is exactly the next part of the remaining document, for every
+        // position of the 64000 byte boundary
+        old(self).iter is Some ==> {
+            &&& res matches Some(chunk)
+            &&& old(self).rest(old(self).sn()) == trace(chunk@) + final(self).rest(old(self).sn())
+            &&& final(self).iter is Some ==> final(self).sn() == old(self).sn() && final(self).wf(old(self).sn())
+            &&& final(self).iter is None ==> final(self).rest(old(self).sn()) == Seq::<Tok>::empty()
+            // and the stream ends after finitely many chunks
+            &&& final(self).measure(old(self).sn()) < old(self).measure(old(self).sn())
+        },
+//@ entry
+        let ghost s0 = self.sn();
+        let ghost p0 = self.iter->Some_0.pos();
+        broadcast use axiom_trace_empty, axiom_bytes_of, lemma_push_concat;
+//@ loop 1
+            invariant
+                iter.wf(), *iter.snapshot == *s0, self.header is None,
+                p0 <= iter.pos() <= snap_len(s0),
+                first == (iter.pos() == 0),
+                iter.pos() == p0 ==> vec@.len() <= 64000,
+                // C18
+                trace(vec@) + snap_rest(s0, iter.pos(), first) + seq![Tok::Footer] == old(self).rest(s0),
+            decreases snap_len(s0) - iter.pos(),
+//@ loopentry 1
+            broadcast use axiom_trace_empty, axiom_bytes_of, lemma_push_concat;
 //@ fn DeltaStream::next_announce
 //@ spec
     requires
@@ -316,4 +386,46 @@ broadcast proof fn lemma_push_concat<A>(s: Seq<A>, t: A, r: Seq<A>)
     ensures #[trigger] (s.push(t) + r) == s + (seq![t] + r)
 {
     assert((s.push(t) + r) =~= s + (seq![t] + r));
+}
+
+// ---- C18: the token stream of a /json-delta reset (snapshot) response ----
+
+// the item tokens for the flat items of the data set from index `from` on
+spec fn snap_rest<'a>(d: &'a PayloadSnapshot, from: int, first: bool) -> Seq<Tok<'a>>
+    decreases snap_len(d) - from
+{
+    if from < 0 || from >= snap_len(d) { Seq::empty() }
+    else { seq![Tok::Item(snap_at(d, from), first)] + snap_rest(d, from + 1, false) }
+}
+
+// the complete document: header, every item of the data set, footer
+spec fn snapshot_document<'a>(d: &'a PayloadSnapshot) -> Seq<Tok<'a>> {
+    seq![Tok::Header] + snap_rest(d, 0, true) + seq![Tok::Footer]
+}
+
+impl SnapshotStream {
+    // the data set being streamed (while the iterator exists)
+    spec fn sn(&self) -> &PayloadSnapshot { &*self.iter->Some_0.snapshot }
+
+    spec fn wf(&self, d: &PayloadSnapshot) -> bool {
+        &&& self.iter matches Some(it) ==> *it.snapshot == *d && it.wf()
+        &&& self.header matches Some(h) ==> trace(h@) == seq![Tok::Header] && h@.len() <= 64000
+                && self.iter is Some && self.iter->Some_0.pos() == 0
+        // after the first chunk at least one item is out (the header alone never fills a chunk)
+        &&& self.header is None && self.iter is Some ==> self.iter->Some_0.pos() >= 1
+    }
+
+    // the tokens this stream has still to produce
+    spec fn rest<'a>(&self, d: &'a PayloadSnapshot) -> Seq<Tok<'a>> {
+        match self.iter {
+            Some(it) =>
+                (if self.header is Some { seq![Tok::Header] } else { Seq::empty() })
+                + snap_rest(d, it.pos(), self.header is Some) + seq![Tok::Footer],
+            None => Seq::empty(),
+        }
+    }
+
+    spec fn measure(&self, d: &PayloadSnapshot) -> int {
+        match self.iter { Some(it) => snap_len(d) - it.pos() + 1, None => 0 }
+    }
 }
